@@ -349,6 +349,10 @@ pub fn closure_case(name: &str, world: &FcWorld, extra_meta: Value, mut dist: Ve
     }
   }
   dist.push(("modules".into(), facts.len() as u64));
+  dist.push(("import_requirements".into(), facts.iter().filter(|f| f.has_output).map(|f| f.imports.len() as u64).sum()));
+  dist.push(("export_star_edges".into(), facts.iter().map(|f| f.stars.len() as u64).sum()));
+  dist.push(("relative_specifiers_in_outputs".into(), facts.iter().map(|f| f.rel.len() as u64).sum()));
+  dist.push(("unresolved_identifiers_in_outputs".into(), facts.iter().map(|f| (f.unresolved_out.len() + f.unresolved_private.len()) as u64).sum()));
   dist.push(("private_declarations_pulled_in".into(), facts.iter().map(|f| f.pulled as u64).sum()));
   dist.push(("private_declarations_dropped".into(), facts.iter().map(|f| f.dropped as u64).sum()));
   dist.push(("modules_with_output".into(), n_out));
